@@ -140,7 +140,13 @@ impl Storage {
         Ok(&self.snaps.front().unwrap().snap)
     }
     pub fn new_builder(&mut self) -> Builder {
-        self.free.pop().unwrap_or_default().recycle()
+        let snap = self.free.pop().unwrap_or_default();
+        // Keep the numbering of extended item types stable across the stored
+        // snapshots, any of them can become the base of the next delta.
+        match self.snaps.front() {
+            Some(newest) => snap.recycle_like(&newest.snap),
+            None => snap.recycle(),
+        }
     }
     pub fn set_delta_tick<W>(&mut self, warn: &mut W, tick: i32) -> Result<(), UnknownSnap>
     where
